@@ -126,7 +126,7 @@ type LayoutOpts struct {
 // holding a comment ends with a line break (except possibly the final one).
 func Layout(r *rng.R, toks []Tok, o LayoutOpts) (lead string, gaps []string, stats map[string]int) {
 	stats = map[string]int{}
-	gap := func(required, last bool) string {
+	gap := func(required, last bool, prev string) string {
 		var sb strings.Builder
 		if required || (o.AddOptional && r.Chance(1, 3)) {
 			b := blanks[r.Intn(len(blanks))]
@@ -134,25 +134,44 @@ func Layout(r *rng.R, toks []Tok, o LayoutOpts) (lead string, gaps []string, sta
 			stats["gap/"+strconv.Quote(b)]++
 		}
 		if o.Comments && r.Chance(1, 5) {
-			pool := commentBodies
-			if o.QuoteInCmt && r.Chance(1, 4) {
-				pool = commentBodiesWithQuote
+			// one comment, sometimes a block of several comment lines in a row
+			n := 1
+			if r.Chance(1, 4) {
+				n = 2 + r.Intn(4)
+				stats["comment-block"]++
 			}
-			body := pool[r.Intn(len(pool))]
-			if sb.Len() == 0 {
-				sb.WriteString(" ")
-			}
-			sb.WriteString("//" + body)
-			if last && o.FinalNoEOL && r.Bool() {
-				stats["comment/final-without-eol"]++
-			} else if r.Chance(1, 4) {
-				sb.WriteString("\r\n")
-			} else {
-				sb.WriteString("\n")
-			}
-			stats["comment"]++
-			if len(body) > 0 {
-				stats[fmt.Sprintf("comment-final-byte/%#02x", body[len(body)-1])]++
+			for k := 0; k < n; k++ {
+				pool := commentBodies
+				if o.QuoteInCmt && r.Chance(1, 4) {
+					pool = commentBodiesWithQuote
+				}
+				body := pool[r.Intn(len(pool))]
+				if sb.Len() == 0 {
+					// a comment may be glued to the token before it, unless that token ends in '/'
+					// (then "x/" + "//c" would read as "x" + "///c")
+					if strings.HasSuffix(prev, "/") || r.Chance(2, 3) {
+						sb.WriteString(" ")
+					} else {
+						stats["comment/glued-to-token"]++
+					}
+				}
+				sb.WriteString("//" + body)
+				if last && k == n-1 && o.FinalNoEOL && r.Bool() {
+					stats["comment/final-without-eol"]++
+				} else if r.Chance(1, 4) {
+					sb.WriteString("\r\n")
+				} else {
+					sb.WriteString("\n")
+				}
+				stats["comment"]++
+				if len(body) > 0 {
+					stats[fmt.Sprintf("comment-final-byte/%#02x", body[len(body)-1])]++
+				} else {
+					stats["comment/empty"]++
+				}
+				if k < n-1 && r.Chance(1, 3) {
+					sb.WriteString(blanks[r.Intn(len(blanks))])
+				}
 			}
 			if r.Chance(1, 3) {
 				sb.WriteString(blanks[r.Intn(len(blanks))])
@@ -161,15 +180,15 @@ func Layout(r *rng.R, toks []Tok, o LayoutOpts) (lead string, gaps []string, sta
 		return sb.String()
 	}
 	if r.Chance(1, 3) {
-		lead = gap(false, false)
+		lead = gap(false, false, "")
 	}
 	gaps = make([]string, len(toks))
 	for i := range toks {
 		if i == len(toks)-1 {
-			gaps[i] = gap(false, true)
+			gaps[i] = gap(false, true, toks[i].S)
 			break
 		}
-		gaps[i] = gap(GapRequired(toks[i], toks[i+1]), false)
+		gaps[i] = gap(GapRequired(toks[i], toks[i+1]), false, toks[i].S)
 	}
 	return
 }
